@@ -567,7 +567,12 @@ func c11Run(b *shimBackend, c c11Case) (res c11Result) {
 	var sessA *c11Sess
 	if c.Reopen != "" {
 		nSess = 2
-		crossed = func(string) string { return "C11:cross-wired-sessions" }
+		crossed = func(sig string) string {
+			if strings.Contains(sig, ":injection-") {
+				return sig // a message rewritten by injection is not a mix-up of sessions
+			}
+			return "C11:cross-wired-sessions"
+		}
 		sessA = &c11Sess{token: c.ID + "-A"}
 		id, bc, a := shimOpen(h, b, sessA.token, "/socket/"+c.ID+"?n=A", c.Version)
 		if id == "" || bc == nil {
